@@ -235,12 +235,19 @@ func TestC11Crash(t *testing.T) {
 }
 
 func genFaultOp(rt *rapid.T, w *World, pre *Snapshot, prof Profile) Op {
+	if w.StepNo == 1 && pct(rt, 15, "c03.big") {
+		// a log larger than the 64 KiB windows readers and repair code work with
+		return Op{Kind: "new_task", Mode: "bodystdin", Title: sp(w.UniqueTitle("big")), Body: sp(bigBody(between(rt, 66000, 210000, "c03.bigsize")))}
+	}
 	if w.StepNo >= 2 && pct(rt, 30, "fault?") {
 		var inner Op
 		if pct(rt, 60, "fault.multi") {
 			inner = genMultiEventOp(rt, w, pre)
 		} else {
 			inner = genOp(rt, w, pre, Profile{Name: "inner", Weights: map[string]int{"new_task": 30, "new_epic": 8, "set": 30, "claim": 10, "sequence": 10, "plan": 8, "compact": 8, "prune_yes": 6}, Results: 10})
+		}
+		if (inner.Kind == "new_task" || inner.Kind == "set") && inner.Mode != "flags" && pct(rt, 12, "fault.bigbody") {
+			inner.Body = sp(bigBody(between(rt, 66000, 200000, "fault.bigsize")))
 		}
 		kind := oneOf(rt, []string{"kill", "kill", "tear", "tear", "tear", "tmp"}, "fault.kind")
 		if kind == "tmp" && inner.Kind != "plan" && inner.Kind != "compact" {
